@@ -316,6 +316,9 @@ case_sds(long idx, void *ctx)
         dfsd_check(&a, 0, "other interface", 0);
         dfsd_check(&b, 1, "other interface", 0);
     }
+    mc_outcome(mc_hash(mc_hash_i(MC_H0, dir), a.data, sizeof a.data)); /* what the readers had to return */
+    if (idx % 97 == 0)
+        mc_sample("%s", g_case);
     mc_count("sds_cases", 1);
 }
 
@@ -507,6 +510,9 @@ case_img(long idx, void *ctx)
                 DISAGREE("img:df24-pixels", "%s: DF24getimage (requested interlace %d, stored %d) differs from the pixels written", who, ril, gil);
         }
     }
+    mc_outcome(mc_hash(mc_hash_i(MC_H0, 100 + w * 10 + var), canon, (size_t)(xd * yd * nc)));
+    if (idx % 23 == 0)
+        mc_sample("%s", g_case);
     mc_count("image_cases", 1);
 }
 
@@ -625,6 +631,9 @@ case_ann(long idx, void *ctx)
             Hclose(f);
         }
     }
+    mc_outcome(mc_hash(mc_hash_i(MC_H0, 200 + kind), text, strlen(text)));
+    if (idx % 7 == 0)
+        mc_sample("%s", g_case);
     mc_count("annotation_cases", 1);
 }
 
@@ -738,6 +747,9 @@ case_nc(long idx, void *ctx)
         if (id >= 0)
             ncclose(id);
     }
+    mc_outcome(mc_hash(mc_hash_i(MC_H0, 300 + w), data, (size_t)n));
+    if (idx % 11 == 0)
+        mc_sample("%s", g_case);
     mc_count("nc_cases", 1);
 }
 
@@ -847,6 +859,7 @@ case_vview(long idx, void *ctx)
         Vdetach(vg);
     Vend(f);
     Hclose(f);
+    mc_outcome(mc_hash(mc_hash_i(MC_H0, 400 + t), aval, (size_t)cnt));
     mc_count("vview_cases", 1);
 }
 
@@ -1056,6 +1069,9 @@ case_legacy(long idx, void *ctx)
         }
         free(b);
     }
+    mc_outcome(mc_hash_i(mc_hash_i(mc_hash_i(mc_hash_i(MC_H0, 500 + idx), ngr8), ngr24), nsd));
+    if (idx % 13 == 0)
+        mc_sample("%s", g_case);
     mc_count("legacy_files", 1);
 }
 
